@@ -72,7 +72,7 @@ func buildEntry(name string, lw *leafWrapper) (s2 sdf.SDF2, s3 sdf.SDF3, err err
 		}
 	}()
 	if e.Shared {
-		key := fmt.Sprintf("%s/%v", name, lw != nil && lw.on)
+		key := name // one instance per process, whatever the wrapping
 		if v, ok := sharedInstances[key]; ok {
 			if e.Build2 != nil {
 				return v.(sdf.SDF2), nil, nil
